@@ -527,6 +527,9 @@ class Coder(object):
             raise NotImplementedError('delayed repetition descriptor')
 
         log.debug('Processing {}'.format(descriptor.factor))
+        if not isinstance(descriptor.factor, ElementDescriptor):
+            raise UnknownDescriptor('Cannot process delayed replication factor {} of type: {}'.format(
+                descriptor.factor, type(descriptor.factor).__name__))
         self.process_element_descriptor(state, bit_operator, descriptor.factor)
         for _ in range(self.get_value_for_delayed_replication_factor(state)):
             self.process_members(state, bit_operator, descriptor.members)
